@@ -2,6 +2,8 @@ package main
 
 import (
 	"fmt"
+	"os"
+	"path/filepath"
 	"runtime"
 	"sort"
 	"strings"
@@ -10,7 +12,9 @@ import (
 	"time"
 
 	"github.com/go-spatial/geom"
+	"github.com/go-spatial/geom/encoding/gpkg"
 	"github.com/pdok/texel/processing"
+	tgpkg "github.com/pdok/texel/processing/gpkg"
 	"github.com/pdok/texel/tms20"
 )
 
@@ -99,8 +103,8 @@ func (t *fakeTarget) WriteFeatures(ch <-chan processing.Feature) {
 
 type pipeCase struct {
 	targets []int
-	kinds   []int             // per feature: 0 polygon, 1 multipolygon, 2 point, 3 line, 4 empty multipoint
-	outcome [][]map[int]int   // per feature, per part: tile matrix id -> number of polygons (absent = dropped)
+	kinds   []int           // per feature: 0 polygon, 1 multipolygon, 2 point, 3 line, 4 empty multipoint
+	outcome [][]map[int]int // per feature, per part: tile matrix id -> number of polygons (absent = dropped)
 	procs   int
 	speeds  map[int]int // per target: microseconds per feature
 	srcUS   int
@@ -289,7 +293,7 @@ func checkPipe(e *env, prop string) {
 	r.Rule = "the real processing.ProcessFeatures with a fake source, a fake snapping function and N = 1..5 fake targets: streams of 0..200 features (polygons, multipolygons of 1-3 parts, points, lines, empty multipoints), " +
 		"per (feature, part, tile matrix) outcome dropped / one polygon / two or three polygons, relative speeds of source, snapping and each target varied (the slowest target often gets the last feature; a slow final flush), GOMAXPROCS 1..16. " +
 		"Compared with the model: per target the expected feature sequence (op pipe) and a random complete schedule of the state machine (op piperun). Oracles: exact sequence, geometry and attribute values per target, " +
-		"return only after every target finished, no goroutine left, no hang. Non-trivial = at least 2 targets and a mixed stream with some dropped and some split outcome; distinct by op text + speeds."
+		"return only after every target finished, no goroutine left, no hang. Stream gpkg-pipe: real SourceGeopackage and 4-6 real TargetGeopackages on SQLite with 3 attribute columns (the shared spare slot of finding F6), thousands of features. Non-trivial = at least 2 targets and a mixed stream with some dropped and some split outcome; distinct by op text + speeds."
 	var wgNote sync.Once
 	n := e.n(700, 60000)
 	for it := 0; it < n; it++ {
@@ -425,4 +429,96 @@ func checkPipe(e *env, prop string) {
 	}
 	e.flush()
 	wgNote.Do(func() {})
+	if prop == "C10" {
+		// real GeoPackage targets: several runs with a few thousand features; the thorough tier adds the 30 000 x 6 run
+		for k := 0; k < e.n(3, 6); k++ {
+			gpkgPipe(e, e.n(4000, 8000), 4+k%3, 1000)
+		}
+		if e.tier == "thorough" {
+			gpkgPipe(e, 30000, 6, 1000)
+		}
+	}
+}
+
+// gpkgPipe: the real pipeline end to end below the snapping function: real SourceGeopackage -> processing.ProcessFeatures ->
+// N real TargetGeopackages on SQLite, with a fake snapping function whose output names the tile matrix. Every row of every
+// target must carry the geometry made for that target's tile matrix (finding F6 lived here: a spare slot of the columns slice shared by the targets).
+func gpkgPipe(e *env, nfeat, ntargets, pagesize int) {
+	r := e.res
+	dir, err := os.MkdirTemp(scratchBase(), "vh-c10-")
+	if err != nil {
+		r.Notes = append(r.Notes, err.Error())
+		return
+	}
+	defer os.RemoveAll(dir)
+	t := randTable(e.rng, "polys", gpkg.Polygon, nfeat, 0)
+	// key + two attributes = 3 columns: append() gives the columns slice capacity 4, the spare slot
+	t.cols = []colSpec{{"fid", "INTEGER"}, {"a0", "TEXT"}, {"a1", "REAL"}}
+	t.gpos = 1
+	t.srs = 28992
+	for i := range t.rows {
+		t.rows[i] = []interface{}{int64(i + 1), fmt.Sprintf("n%d", i), float64(i) / 4}
+		t.geoms[i] = geom.Polygon{{{float64(i), 0}, {float64(i) + 1, 0}, {float64(i), 1}}}
+	}
+	src := filepath.Join(dir, "src.gpkg")
+	if err := writeSource(src, []*tableSpec{t}); err != nil {
+		r.Notes = append(r.Notes, "gpkg-pipe: "+err.Error())
+		return
+	}
+	var source tgpkg.SourceGeopackage
+	source.Init(src)
+	tables := source.GetTableInfo()
+	source.Table = tables[0]
+	targets := map[int]processing.Target{}
+	var tgs []*tgpkg.TargetGeopackage
+	for tm := 0; tm < ntargets; tm++ {
+		tg := &tgpkg.TargetGeopackage{}
+		tg.Init(filepath.Join(dir, fmt.Sprintf("dst_%d.gpkg", tm)), pagesize)
+		if err := tg.CreateTables(tables); err != nil {
+			r.Notes = append(r.Notes, "gpkg-pipe: "+err.Error())
+			return
+		}
+		tg.Table = tables[0]
+		targets[tm] = tg
+		tgs = append(tgs, tg)
+	}
+	f := func(p geom.Polygon, tmIDs []tms20.TMID) map[tms20.TMID][]geom.Polygon {
+		res := map[tms20.TMID][]geom.Polygon{}
+		for _, tm := range tmIDs {
+			res[tm] = []geom.Polygon{{{{p[0][0][0], float64(1000 + tm)}, {1, 0}, {0, 1}}}}
+		}
+		return res
+	}
+	processing.ProcessFeatures(source, targets, f)
+	for _, tg := range tgs {
+		tg.Close()
+	}
+	source.Close()
+	op := fmt.Sprintf("gpkg-pipe: %d features, 3 attribute columns (cap 4), %d real GeoPackage targets, page size %d", nfeat, ntargets, pagesize)
+	r.count("gpkg-pipe", op, true)
+	for tm := 0; tm < ntargets; tm++ {
+		got, err := readBack(filepath.Join(dir, fmt.Sprintf("dst_%d.gpkg", tm)), "polys", t.gcol)
+		if err != nil {
+			r.violation(Violation{Oracle: "target-readable", Op: op, Detail: err.Error()})
+			continue
+		}
+		if len(got.rows) != nfeat {
+			r.violation(Violation{Oracle: "each-feature-exactly-once-in-order", Op: op, Detail: fmt.Sprintf("target %d has %d rows, expected %d", tm, len(got.rows), nfeat)})
+			continue
+		}
+		wrong := 0
+		first := ""
+		for i, row := range got.rows {
+			pg, ok := row.g.(geom.Polygon)
+			if !ok || len(pg) == 0 || len(pg[0]) == 0 || pg[0][0][1] != float64(1000+tm) || pg[0][0][0] != float64(i) {
+				wrong++
+				if first == "" {
+					first = fmt.Sprintf("row %d carries %s", i, row.wkt)
+				}
+			}
+		}
+		if wrong > 0 {
+			r.violation(Violation{Oracle: "geometry-of-that-tile-matrix-only", Op: op, Impl: fmt.Sprintf("%d of %d rows of target %d carry a geometry made for another tile matrix or feature", wrong, nfeat, tm), Detail: first})
+		}
+	}
 }
